@@ -7,6 +7,7 @@ HARNESSES = [
     ("c01", "rcfork", ()),
     ("c02", "rcfork", ()),
     ("c03", "rcfork", ()),
+    ("c05", "rcfork", ()),
     ("c08", "rcfork", ()),
     ("c12", "rcfork", ()),
     ("c13", "rcfork", ()),
@@ -53,6 +54,29 @@ def std_check(ctx, jobs):
         V.run_workers(ctx, job)
 
 
+def std_check_parallel(ctx, jobs):
+    """like std_check, but the jobs (e.g. one per backend pairing) run side by side"""
+    from concurrent.futures import ThreadPoolExecutor
+    bins = {}
+    for j in jobs:
+        j["bin"] = bins.setdefault(j["harness"], hbin(j["harness"]))
+    by_name = {}
+    for j in jobs:
+        by_name[j["harness"]] = j["bin"]
+        for alias in j.get("aliases", []):
+            by_name[alias] = j["bin"]
+    V.run_replay_tier(ctx, by_name)
+    prepared = []
+    for idx, j in enumerate(jobs):
+        job = dict(j)
+        job["cases"] = ctx.pick(*j["cases"])
+        job["workers"] = ctx.pick(*j["workers"])
+        job.setdefault("seed_offset", idx)
+        prepared.append(job)
+    with ThreadPoolExecutor(len(prepared)) as ex:
+        list(ex.map(lambda job: V.run_workers(ctx, job), prepared))
+
+
 def replay_one(ctx, path):
     info = V.parse_replay_header(path)
     name = info["harness"]
@@ -68,7 +92,7 @@ def replay_one(ctx, path):
 
 
 # engine cfg.name -> source file name
-ALIASES = {"c01_load": "c01", "c02_history": "c02", "c03_bitmap": "c03", "c08_restrict": "c08", "c12_dup": "c12", "c13_distances": "c13", "c14_memattrs": "c14", "c15_cpukinds": "c15", "c16_diff": "c16", "c04_strings": "c04"}
+ALIASES = {"c01_load": "c01", "c02_history": "c02", "c03_bitmap": "c03", "c05_xml": "c05", "c08_restrict": "c08", "c12_dup": "c12", "c13_distances": "c13", "c14_memattrs": "c14", "c15_cpukinds": "c15", "c16_diff": "c16", "c04_strings": "c04"}
 
 
 def C01(ctx):
@@ -134,4 +158,13 @@ def C16(ctx):
     std_check(ctx, [dict(harness="c16", aliases=["c16_diff"], cases=(700, 20000), max_ops=6)])
 
 
-PROPS = {"C01": C01, "C16": C16, "C14": C14, "C13": C13, "C15": C15, "C08": C08, "C12": C12, "C02": C02, "C03": C03, "C04": C04}
+def C05(ctx):
+    jobs = []
+    for e in ("0", "1"):
+        for i in ("0", "1"):
+            jobs.append(dict(harness="c05", aliases=["c05_xml"], tag="c05-exp%s-imp%s" % (e, i), cases=(450, 9000), workers=(4, 4), max_ops=6,
+                             env={"HWLOC_LIBXML_EXPORT": e, "HWLOC_LIBXML_IMPORT": i}))
+    std_check_parallel(ctx, jobs)
+
+
+PROPS = {"C01": C01, "C05": C05, "C16": C16, "C14": C14, "C13": C13, "C15": C15, "C08": C08, "C12": C12, "C02": C02, "C03": C03, "C04": C04}
